@@ -19,7 +19,8 @@ MANIFEST = dict(
          "Kernel part (C07k): in the concurrent kernel model running the subscriber programs regenerated from subscriber.go (decided equal on every run), for every mode, threads, scripts and schedule, a terminal notification is handed to the drop hook only when the subscriber is already closed (kernel_terminal_refused_only_when_closed) - never because the producer lock is busy; K: log predicate terminal-lost on the real subscriber under concurrent producers. "
          "Partial: five deviation classes of the pinned tree are witness theorems + known findings (final observer stays open after its onNext panics; Error/Complete-position callbacks; (Future, formerly listed, is repaired by 8bf73dd + 34cf01a and is now the theorem future_factory_panic); "
          "teardown panics re-raised into the producer / dropped; subscriberImpl.NextWithContext without deferred unlock). Not covered: Share/subject scenarios (iv, subject half of v), multi-source operators."
-         ' Panic values that are errors the library has already wrapped (ro.Observable: ro.Observer: user-n) keep their whole chain when wrapped again (fault value pw); an error of the source crosses ObserveOn / SubscribeOn / ToChannel also under an already-cancelled subscription context (kind=chan cc=1, terminal compared).',
+         ' Panic values that are errors the library has already wrapped (ro.Observable: ro.Observer: user-n) keep their whole chain when wrapped again (fault value pw); an error of the source crosses ObserveOn / SubscribeOn / ToChannel also under an already-cancelled subscription context (kind=chan cc=1, terminal compared).'
+         ' The partial observers swallow a panic of their one callback in the empty error callback they are built with: the unhandled hook stays silent (partial_observer_unhandled_silent); observers with NIL callbacks: the panic reaches the unhandled hook wrapped once, the observer stays open (nil_error_callback_panic_unhandled; kind=nilobs).',
     technique="Lean 4 proof (simulation of the fault interpreter by runOp of an injected machine, invariants over the interpreter, decide over the regenerated go-statement table) + differential correspondence with fault injection",
     ref='5/C07')
 
